@@ -126,6 +126,24 @@ func registerHarnesses() {
 				}}
 		}
 	}
+	// H6: two views reading through the index files at the same time (key-only and sparse mode): every
+	// file read is a scheduling point, so two readers can interleave inside one record read
+	for _, mode := range []int{core.K, core.S} {
+		mode := mode
+		harnesses["C14/H6-readers/"+modeName(mode)] = func() *harness {
+			rd := func(a, b string) func(do func(core.Call) core.Res, yield func()) error {
+				return func(do func(core.Call) core.Res, yield func()) error {
+					do(get(a))
+					do(get(b))
+					return nil
+				}
+			}
+			return &harness{name: "H6", cfg: core.Cfg{Mode: mode, Seg: 100}, ndb: 1, classes: []string{"fs-read", "fs-open-for-read", "fs-open", "yield"},
+				setup:   []core.Op{up(put("k1", "v1")), up(put("k2", "value-two")), up(put("k3", "v3"))},
+				queries: kvQueries("k1", "k2", "k3"),
+				threads: []hthread{{name: "R1", kind: "view", body: rd("k1", "k2")}, {name: "R2", kind: "view", body: rd("k2", "k1")}}}
+		}
+	}
 	// H3: two databases in one process, each rotating a segment whose tree has two levels (sparse)
 	harnesses["C14/H3-two-dbs/S"] = func() *harness {
 		var setup []core.Call
